@@ -462,7 +462,7 @@ func check(prop, tier string) int {
 			defer wg.Done()
 			for {
 				mu.Lock()
-				if next >= len(chunks) || time.Now().After(deadline) || len(machineErrs) > 0 {
+				if next >= len(chunks) || time.Now().After(deadline) || len(machineErrs) > 3 {
 					mu.Unlock()
 					return
 				}
@@ -502,12 +502,39 @@ func check(prop, tier string) int {
 		}()
 	}
 	wg.Wait()
+	// A machinery failure (a worker died outside any armed sentinel, a watchdog, a harness panic)
+	// makes the check inconclusive (exit 2) unless some other run found a violation that
+	// reproduces: a confirmed violation is reported first.
+	machinery := ""
 	if len(machineErrs) > 0 {
-		fmt.Fprintf(os.Stderr, "dsim: machinery failure (not a violation):\n%s\n", strings.Join(machineErrs, "\n"))
-		return 2
+		machinery = "dsim: machinery failure (not a violation):\n" + strings.Join(machineErrs, "\n")
 	}
 	sort.Slice(all, func(i, j int) bool { return all[i].Seed < all[j].Seed })
-	for _, r := range all {
+	{
+		kept := all[:0]
+		for _, r := range all {
+			if r.Panic != "" {
+				if machinery == "" {
+					os.MkdirAll(filepath.Join(verifDir, "replays"), 0o755)
+					pf := filepath.Join(verifDir, "replays", fmt.Sprintf("%s-panic-%d.json", prop, r.Seed))
+					b, _ := json.MarshalIndent(map[string]any{"scenario": r.Scenario, "panic": r.Panic}, "", " ")
+					os.WriteFile(pf, b, 0o644)
+					machinery = fmt.Sprintf("dsim: harness failure in run seed %d (not a violation; scenario saved to %s):\n%s", r.Seed, pf, lastLines(r.Panic, 30))
+				}
+				continue
+			}
+			kept = append(kept, r)
+		}
+		all = kept
+	}
+	if len(all) == 0 {
+		if machinery != "" {
+			fmt.Fprintln(os.Stderr, machinery)
+		}
+		fmt.Fprintf(os.Stderr, "dsim: no runs completed\n")
+		return 2
+	}
+	for _, r := range all[:0] {
 		if r.Panic != "" {
 			os.MkdirAll(filepath.Join(verifDir, "replays"), 0o755)
 			pf := filepath.Join(verifDir, "replays", fmt.Sprintf("%s-panic-%d.json", prop, r.Seed))
@@ -609,6 +636,10 @@ func check(prop, tier string) int {
 		fmt.Printf("VIOLATION property=%s replay=%s\n", prop, pf)
 		fmt.Printf("  class=%s key=%s\n  %s\n", fv.Class, fv.Key, fv.Detail)
 		exit = 1
+	}
+	if exit == 0 && machinery != "" {
+		fmt.Fprintln(os.Stderr, machinery)
+		exit = 2
 	}
 	ev["wall_s"] = time.Since(start).Seconds()
 	writeEvidence(prop, ev)
